@@ -604,10 +604,14 @@ class Network:
 
             except asyncio.CancelledError:
                 # The request itself got cancelled: stop the attempts that
-                # are still running
+                # are still running. An attempt that finished at the very same
+                # moment already has its connection: nobody will get it
                 for pending_task in pending:
                     pending_task.cancel()
-                await asyncio.gather(*pending, return_exceptions=True)
+                results = await asyncio.gather(*pending, return_exceptions=True)
+                for result in results:
+                    if isinstance(result, PeerConnection):
+                        await result.disconnect(CloseReason.REQUESTED)
                 raise
 
             connections = []
@@ -619,14 +623,22 @@ class Network:
 
             if connections:
 
-                if pending:
-                    for pending_task in pending:
-                        logger.debug("cancelling connect task : %s", pending_task.get_name())
-                        pending_task.cancel()
-                    await asyncio.gather(*pending, return_exceptions=True)
+                try:
+                    if pending:
+                        for pending_task in pending:
+                            logger.debug("cancelling connect task : %s", pending_task.get_name())
+                            pending_task.cancel()
+                        await asyncio.gather(*pending, return_exceptions=True)
 
-                if len(connections) > 1:
-                    await connections[1].disconnect(CloseReason.REQUESTED)
+                    if len(connections) > 1:
+                        await connections[1].disconnect(CloseReason.REQUESTED)
+
+                except asyncio.CancelledError:
+                    # The request got cancelled while the other attempt was
+                    # being cleaned up: nobody will get the connection
+                    for connection in connections:
+                        await connection.disconnect(CloseReason.REQUESTED)
+                    raise
 
                 return connections[0]
 
